@@ -31,7 +31,7 @@ Applicable(e) ==
     [] e = "naive.predict" -> {"duplicate_horizon", "empty_horizon", "fractional_horizon", "missing_horizon", "wrongtype_horizon"}
     [] e = "naive.update" -> {"array_target", "multivariate_target", "unsorted_index"}
     [] e = "pipeline.fit" -> {"array_target", "composite_duplicate_names", "composite_last_step_not_a_forecaster", "composite_name_clashes_with_parameter", "composite_name_with_dunder", "composite_step_not_a_transformer", "duplicate_horizon", "empty_horizon", "empty_index", "fractional_horizon", "multivariate_target", "unsorted_index", "wrongtype_horizon"}
-    [] e = "pipeline.predict" -> {"duplicate_horizon", "empty_horizon", "fractional_horizon", "missing_horizon", "wrongtype_horizon"}
+    [] e = "pipeline.predict" -> {"duplicate_horizon", "empty_horizon", "fractional_horizon", "horizon_differs_from_fit", "missing_horizon", "wrongtype_horizon"}
     [] e = "poly.fit" -> {"array_target", "duplicate_horizon", "empty_horizon", "empty_index", "fractional_horizon", "multivariate_target", "unsorted_index", "wrongtype_horizon"}
     [] e = "poly.predict" -> {"duplicate_horizon", "empty_horizon", "fractional_horizon", "missing_horizon", "wrongtype_horizon"}
     [] e = "poly.update" -> {"array_target", "multivariate_target", "unsorted_index"}
